@@ -253,8 +253,9 @@ func probes(c *lib.Case, fx *fixture, ctor int, o, donor parts) {
 			defer func() {
 				fx.pull = nil
 				if r := recover(); r != nil {
+					// a peer's answer must never crash the client (the C11 clause; this harness is the one driving the pull path)
 					c.Count("info.pull.response-without-payload.panic", 1)
-					c.Sample("pull-without-payload", fmt.Sprint(r))
+					c.Violation("panic:pull:response-without-payload", "a SpacePullResponse without payload panics the pulling client", map[string]any{"panic": fmt.Sprint(r)})
 				}
 			}()
 			fx.pull = &spacesyncproto.SpacePullResponse{}
